@@ -117,14 +117,25 @@ def cand_surplus(self: 'Candidate') -> 'val':
     modifies()
 
 
-@contract('droop.election.Election.logAction', props=['C18'],
-          trusted='definition of the ghost log: a call of logAction IS a recorded action (it delegates to ElectionRecord.action)')
+ACTION_TAGS = ('begin', 'count', 'log', 'round', 'tie', 'elect', 'defeat', 'iterate', 'unpend', 'transfer', 'end')
+
+
+@specfn
+def valid_tag(tag):
+    "one of the eleven action tags ElectionRecord.action accepts"
+    return or_(tag == 'begin', tag == 'count', tag == 'log', tag == 'round', tag == 'tie', tag == 'elect', tag == 'defeat',
+               tag == 'iterate', tag == 'unpend', tag == 'transfer', tag == 'end')
+
+
+@contract('droop.election.Election.logAction', props=['C18', 'C19'])
 def election_log(self: 'Election', action: 'str', msg: 'str'):
-    "records one action (record.py contracts say what it contains)"
+    "records exactly one complete action with this tag and message (delegates to ElectionRecord.action)"
+    requires(valid_tag(action))
     modifies_ghost('nlog', 'lasttag', 'lastmsg')
     ensures(ghost('nlog') == old(ghost('nlog')) + 1)
     ensures(ghost('lasttag') == action)
     ensures(ghost('lastmsg') == msg)
+    ensures(ghost('lastcomplete') == 1, name='the recorded action is complete when it is appended')
 
 
 @contract('droop.election.Election.log', props=['C18'])
@@ -226,7 +237,7 @@ def election_render(self: 'Election', intr: 'bool' = False) -> 'str':
 
 
 Record = cls('droop.record.ElectionRecord')
-schema('droop.record.ElectionRecord', fields={'E': 'ref:droop.election.Election', 'filled': 'bool'})
+schema('droop.record.ElectionRecord', fields={'E': 'ref:droop.election.Election', 'filled': 'model:flag'})
 
 
 @contract(['droop.record.ElectionRecord.report', 'droop.record.ElectionRecord.dump', 'droop.record.ElectionRecord.json'],
@@ -236,7 +247,56 @@ def record_render(self: 'Record', intr: 'bool' = False) -> 'str':
     modifies()
 
 
-@contract('droop.record.ElectionRecord.action', props=['C18', 'C19'],
-          trusted='appends one complete action dictionary (SCAN obligations append-only / complete-before-append under C19)')
-def record_action(self: 'Record', tag: 'str', msg: 'str'):
+schema('droop.rules.electionrule.ElectionRule', fields={'E': 'ref:droop.election.Election'})
+schema('droop.rules.electionmethods.MethodWIGM', fields={'E': 'ref:droop.election.Election'})
+schema('droop.rules.electionmethods.MethodMeek', fields={'E': 'ref:droop.election.Election', 'omega': 'any'})
+
+RULE_ACTION_HOOKS = ['droop.rules.electionrule.ElectionRule.action', 'droop.rules.electionmethods.MethodWIGM.action',
+                     'droop.rules.electionmethods.MethodMeek.action', 'droop.rules.qpq.Rule.action']
+
+
+@specfn
+def keeps(d, snap, key):
+    "entry `key` of dictionary d is what it was in the snapshot"
+    return and_(iff(dhas(d, key), dhas_in(snap, key)), any_same(dval(d, key), dval_in(snap, key)))
+
+
+@contract(RULE_ACTION_HOOKS, props=['C18', 'C19'])
+def rule_action_hook(self: 'any_rule', record: 'Record', action: 'dict|none' = None):
+    """the rule's recording hook (every override is held to this one contract): it adds the rule's own entries to the
+    action and never removes or rewrites the tag, message, round, state snapshot or quota the record put there"""
+    if not_(is_none(action)):
+        ensures(keeps(action, old_dict(action), 'tag'))
+        ensures(keeps(action, old_dict(action), 'msg'))
+        ensures(keeps(action, old_dict(action), 'round'))
+        ensures(keeps(action, old_dict(action), 'cstate'))
+        ensures(keeps(action, old_dict(action), 'quota'))
+        ensures(implies(old(dhas(action, 'votes')), dhas(action, 'votes')))
+        modifies_dict(action)
     modifies()
+
+
+@contract(['droop.candidates.Candidates.cState', 'droop.candidates.Candidates.copy'], props=['C18'],
+          trusted='pure builders of reporting snapshots (a dictionary of per-candidate dictionaries / a set of shallow copies): '
+                  'they change nothing; what they contain is checked by the bounded stand-in of C18')
+def candidates_snapshot(self: 'Candidates') -> 'any':
+    modifies()
+
+
+@contract('droop.record.ElectionRecord._fill', props=['C18', 'C19'],
+          trusted='fills the header entries of the record (title, rule, arithmetic, candidates, options): it never touches the '
+                  'action list (SCAN fill-does-not-touch-actions); the header content is checked by the bounded stand-in')
+def record_fill(self: 'Record'):
+    modifies()
+
+
+@contract('droop.record.ElectionRecord.action', props=['C18', 'C19'])
+def record_action(self: 'Record', tag: 'str', msg: 'str'):
+    """appends exactly one action carrying this tag and message, and only once it is complete: the state snapshot,
+    totals and quota are in place and the rule's hook has run (plain 'log' lines carry tag, message and round only)"""
+    requires(valid_tag(tag))
+    modifies_ghost('nlog', 'lasttag', 'lastmsg')
+    ensures(ghost('nlog') == old(ghost('nlog')) + 1, name='exactly one action is appended')
+    ensures(ghost('lasttag') == tag)
+    ensures(ghost('lastmsg') == msg)
+    ensures(ghost('lastcomplete') == 1, name='the action is complete when it is appended')
